@@ -163,10 +163,14 @@ def write_shapefile(
         for i, polygon in enumerate(dataset.ems.polygons):
             if polygon is None:
                 continue
+            # The values are passed positionally, in the order the fields
+            # were declared. Shapefile field names are limited to ten
+            # characters, so `linear_index` is stored under a truncated name
+            # and a value passed by keyword would be lost.
             writer.record(
-                name=f'polygon{i}',
-                linear_index=i,
-                index=json.dumps(dataset.ems.wind_index(i)),
+                f'polygon{i}',
+                i,
+                json.dumps(dataset.ems.wind_index(i)),
             )
             writer.shape(polygon.__geo_interface__)
 
